@@ -54,6 +54,23 @@ func (g *c08Gen) group(ref int) scen.Arg {
 	return a
 }
 
+// c08Warm is a record issued in the setup phase (task 0); tokens #T100001# upwards.
+func c08Warm(r *scen.Rng, g *c08Gen, l, k int, sharedRefs []scen.Arg) scen.Op {
+	t := tok(100000 + k)
+	if r.Chance(1, 4) {
+		return scen.Op{Op: "log", L: l, Entry: scen.Pick(r, []string{"Print", "Println"}), Lvl: model.Always, Msg: scen.Pick(r, []string{"", " ", "\n"}), Tok: t, Kind: "blank"}
+	}
+	sev := scen.Pick(r, []int{model.Error, model.Warn, model.Info, model.Debug, model.Always, model.OK})
+	op := scen.Op{Op: "log", L: l, Entry: sevEntryName[sev], Lvl: sev, Tok: t, Msg: "w" + t}
+	for n := r.Intn(3); n > 0; n-- {
+		op.Args = append(op.Args, g.attr(false))
+	}
+	if r.Chance(1, 3) {
+		op.Args = append(op.Args, scen.Pick(r, sharedRefs))
+	}
+	return op
+}
+
 func (p *C08) Gen(seed uint64, i int, tier string) *scen.Scenario {
 	race := i < 0 // the driver numbers race-world episodes -1, -2, ...
 	r := scen.NewRng(scen.Mix(seed, scen.HashString("C08"), uint64(i)))
@@ -88,6 +105,7 @@ func (p *C08) Gen(seed uint64, i int, tier string) *scen.Scenario {
 
 	nLoggers := r.Range(1, 8)
 	nW := r.Range(1, 4)
+	wk := 0
 	for id := 1; id <= nLoggers; id++ {
 		var op scen.Op
 		if id == 1 || r.Chance(1, 3) {
@@ -119,6 +137,17 @@ func (p *C08) Gen(seed uint64, i int, tier string) *scen.Scenario {
 			op.Opts = append(op.Opts, o)
 		}
 		sc.Setup = append(sc.Setup, op)
+		// records issued before the concurrent phase, while the tree is still growing: a logger that
+		// has already printed gets children afterwards (anything a logger keeps from its first record
+		// is then there when its descendants are made)
+		if r.Chance(1, 3) {
+			wk++
+			sc.Setup = append(sc.Setup, c08Warm(r, g, r.Range(1, id), wk, sharedRefs))
+		}
+	}
+	for k := r.Intn(3); k > 0; k-- {
+		wk++
+		sc.Setup = append(sc.Setup, c08Warm(r, g, r.Range(1, nLoggers), wk, sharedRefs))
 	}
 	G := scen.Pick(r, []int{1, 2, 2, 3, 4, 4, 8, 16, 64})
 	N := r.Range(1, 50)
@@ -160,6 +189,12 @@ func (p *C08) Gen(seed uint64, i int, tier string) *scen.Scenario {
 			tk++
 			sev := scen.Pick(r, sevs)
 			name := sevEntryName[sev]
+			if r.Chance(1, 30) {
+				// a blank Print/Println in the middle of the traffic: its record is the single newline
+				task.Ops = append(task.Ops, scen.Op{Op: "log", L: r.Range(1, nLoggers), Entry: scen.Pick(r, []string{"Print", "Println"}), Lvl: model.Always,
+					Msg: scen.Pick(r, []string{"", " ", "\n", " \t\n"}), Tok: tok(tk), Kind: "blank"})
+				continue
+			}
 			op := scen.Op{Op: "log", L: r.Range(1, nLoggers), Entry: scen.Pick(r, []string{name, name + "Context", "LogAttrs"}), Lvl: sev, Tok: tok(tk)}
 			op.Msg = "m" + op.Tok
 			if r.Chance(1, 6) {
@@ -296,13 +331,26 @@ func (p *C08) WellFormed(sc *scen.Scenario) bool {
 			}
 		}
 	}
+	okLog := func(op *scen.Op) bool {
+		if op.Op != "log" || op.Tok == "" || toks[op.Tok] || !okRefs(op.Args) {
+			return false
+		}
+		toks[op.Tok] = true
+		if op.Kind == "blank" {
+			return strings.Trim(op.Msg, "\n\r \t") == "" && len(op.Args) == 0 && (op.Entry == "Print" || op.Entry == "Println") && op.Lvl == model.Always
+		}
+		return strings.Contains(op.Msg, op.Tok)
+	}
+	for i := range sc.Setup {
+		if op := &sc.Setup[i]; op.Op == "log" && !okLog(op) {
+			return false
+		}
+	}
 	for _, t := range sc.Tasks {
 		for i := range t.Ops {
-			op := &t.Ops[i]
-			if op.Op != "log" || op.Tok == "" || toks[op.Tok] || !strings.Contains(op.Msg, op.Tok) || !okRefs(op.Args) {
+			if !okLog(&t.Ops[i]) {
 				return false
 			}
-			toks[op.Tok] = true
 		}
 	}
 	return len(sc.Tasks) > 0
@@ -395,11 +443,20 @@ func (p *C08) Check(sc *scen.Scenario, run *orch.Run, env *orch.Env) []orch.Viol
 	type call struct {
 		task, idx int
 		op        *scen.Op
+		ph        string
 	}
 	calls := map[string]call{}
+	byPos := map[string]string{} // phase/task/op -> token
+	for i := range sc.Setup {
+		if op := &sc.Setup[i]; op.Op == "log" {
+			calls[op.Tok] = call{0, i, op, "setup"}
+			byPos[opKey("setup", 0, i+1)] = op.Tok
+		}
+	}
 	for _, t := range sc.Tasks {
 		for i := range t.Ops {
-			calls[t.Ops[i].Tok] = call{t.ID, i, &t.Ops[i]}
+			calls[t.Ops[i].Tok] = call{t.ID, i, &t.Ops[i], "task"}
+			byPos[opKey("task", t.ID, i+1)] = t.Ops[i].Tok
 		}
 	}
 	reg := model.NewRegistry()
@@ -418,6 +475,19 @@ func (p *C08) Check(sc *scen.Scenario, run *orch.Run, env *orch.Env) []orch.Viol
 			continue
 		}
 		text := stripSGR(e.P)
+		if string(e.P) == "\n" {
+			// the record of a blank Print/Println: attributed by the call during which it was written
+			tk := byPos[opKey(e.Ph, e.T, e.Op)]
+			if c, ok := calls[tk]; ok && c.op.Kind == "blank" {
+				if delivered[e.W] == nil {
+					delivered[e.W] = map[string]int{}
+				}
+				delivered[e.W][tk]++
+			} else {
+				add("C08.torn", "bare-newline", "destination %d received a bare newline during %s task %d op %d, which is not a blank Print/Println", e.W, e.Ph, e.T, e.Op)
+			}
+			continue
+		}
 		found := map[string]bool{}
 		for _, m := range tokRe.FindAllString(text, -1) {
 			found[m] = true
@@ -435,7 +505,11 @@ func (p *C08) Check(sc *scen.Scenario, run *orch.Run, env *orch.Env) []orch.Viol
 			add("C08.torn", "unknown-token", "payload carries a token no call issued: %.200q", text)
 			continue
 		}
-		if e.T != c.task || e.Op != c.idx+1 {
+		if c.op.Kind == "blank" {
+			add("C08.torn", "blank-with-text", "the blank call %s produced a payload with text: %.200q", tk, text)
+			continue
+		}
+		if e.T != c.task || e.Op != c.idx+1 || (e.Ph != "" && e.Ph != c.ph) {
 			add("C08.attribution", "other-task", "the record of call %s (task %d) was written during task %d op %d", tk, c.task, e.T, e.Op)
 		}
 		if delivered[e.W] == nil {
